@@ -220,7 +220,12 @@ where
                 // Capture chunk + thread scratch by move
                 scope.spawn(move || {
                     #[cfg(feature = "verif-hooks")]
-                    crate::verif_hooks::at("bdd_eval", crate::verif_hooks::Point::ChunkStart, thread_idx, thread_idx * chunk_size);
+                    crate::verif_hooks::at(
+                        "bdd_eval",
+                        crate::verif_hooks::Point::ChunkStart,
+                        thread_idx,
+                        thread_idx * chunk_size,
+                    );
                     for (idx, out_i) in out_chunk.iter_mut().enumerate() {
                         #[cfg(feature = "verif-hooks")]
                         crate::verif_hooks::at(
